@@ -11,7 +11,8 @@ LEVEL = "exploration"
 NEEDS_EBD = True
 RULE = ("sessions of 6-14 API-level actions on REAL bash daemons: metadata regeneration of good / failing (die in global scope, "
         "unknown eclass, syntax error, multi-line stderr) ebuilds, async and sync eclass preload batches incl. a syntax-error "
-        "eclass, clear_preloaded_eclasses, environment dumps, pretend/setup phases whose bodies succeed, die, exit 3, signal "
+        "eclass, clear_preloaded_eclasses, environment dumps, src_compile phases that run pkgcore's real bashrc exchange over bashrc "
+        "lists with regular, missing, directory, dangling, failing and syntactically broken entries, pretend phases whose bodies succeed, die, exit 3, signal "
         "the daemon, call a helper, or emit an unknown command word; SIGINT/SIGTERM/SIGSTOP-SIGCONT sent from outside at random "
         "moments; responsiveness probes in between. Monitors: (1) a stall monitor (Python blocked in a pipe read while every "
         "daemon process sleeps in read/wait4 and the pipe is empty) = both sides waiting; (2) every recorded protocol trace is "
@@ -27,7 +28,7 @@ ASSUMPTIONS = [
 SHARDS = {"quick": 4, "thorough": 16}
 TIMEOUT = {"quick": 480, "thorough": 2400}
 MIN_EVALS = 80
-REQUIRED_COUNTERS = ("sessions", "traces_checked", "probe_ok", "stopped_daemon_sessions:clear", "stopped_daemon_sessions:request")
+REQUIRED_COUNTERS = ("sessions", "traces_checked", "probe_ok", "bashrc_exchanges:3", "stopped_daemon_sessions:clear", "stopped_daemon_sessions:request")
 TECHNIQUE = "runtime monitoring: real daemon sessions under signals/delays; stall detector + protocol-trace automaton + API oracle"
 
 GOOD_ECLASSES = {"g1": 'IUSE="g1f"\n', "g2": 'IUSE="g2f"\ninherit g1\n', "g3": 'DEPEND="dev/g3"\n'}
@@ -86,6 +87,7 @@ class Harness:
         os.makedirs(self.E)
         self.repo = ebd.open_repo(self.root)
         self.stale_probes = []
+        self.cur_bashrcs = []
         # contract on the liveness probe: whenever it answers False although a line WAS read, Python took
         # some other request's reply (or residue) for the answer to 'alive'
         if not getattr(processor.EbuildProcessor, "_vt_probe_wrapped", False):
@@ -171,7 +173,36 @@ class Harness:
         ebp.write("0\x071")  # status 0, value 1 (= "not installed")
 
     def bashrc_handler(self, ebp, *a):
-        ebp.write("end_request")
+        # the REAL Python half of the exchange (ebd._request_bashrcs) over a stub that only supplies the bashrc list
+        from pkgcore.ebuild import ebd as ebd_mod
+        from snakeoil.data_source import local_source
+        owner = [c for c in vars(ebd_mod).values() if isinstance(c, type) and "_request_bashrcs" in vars(c)][0]
+
+        class _Dom:
+            def get_package_bashrcs(_s, pkg):
+                return [local_source(p) for p in self.cur_bashrcs]
+
+        class _Self:
+            domain = _Dom()
+            pkg = self.pkgs["cat/phases-1"]
+
+        self.ctx.count("bashrc_exchanges:%d" % len(self.cur_bashrcs))
+        owner._request_bashrcs(_Self(), ebp)
+
+    def bashrc_list(self, variant):
+        """bashrc lists incl. entries that are not (or no longer) regular files."""
+        b = self.root + "/brc"
+        if not os.path.isdir(b):
+            os.makedirs(b + "/hookdir")
+            self.ebd.write(b + "/one", "export VT_BRC_ONE=1\n")
+            self.ebd.write(b + "/two", "VT_BRC_TWO=2\n")
+            self.ebd.write(b + "/fails", "return 1\n")
+            self.ebd.write(b + "/syntax", "if then fi ((\n")
+            os.symlink("nowhere", b + "/dangling")
+        return {"none": [], "one": [b + "/one"], "two": [b + "/one", b + "/two"], "dir": [b + "/hookdir"],
+                "file-dir-file": [b + "/one", b + "/hookdir", b + "/two"], "missing": [b + "/gone"],
+                "missing-then-file": [b + "/gone", b + "/one"], "dangling": [b + "/dangling", b + "/two"],
+                "fails": [b + "/fails", b + "/one"], "syntax": [b + "/syntax", b + "/two"]}[variant]
 
     # -- actions ---------------------------------------------------------------------------
     def act(self, ebp, action):
@@ -194,8 +225,24 @@ class Harness:
             if kind == "clear":
                 r = ebp.clear_preloaded_eclasses()
                 return ("ok" if r else "false"), None
+            if kind == "bashrc":
+                # a src_* phase loads the saved environment and then runs the bashrc exchange (pkg_pretend suppresses it);
+                # the phase body is the EAPI default (a no-op here): what is exercised is request_bashrcs/path/next/end_request
+                variant, tmpdir = action[1], action[2]
+                envf = self.T + "/environment"
+                if not os.path.exists(envf):
+                    self.ebd.write(envf, 'S="%s"\nWORKDIR="%s"\n' % (self.T, self.T))
+                self.cur_bashrcs = self.bashrc_list(variant)
+                pkg = self.pkgs["cat/phases-1"]
+                env = self.processor.expected_ebuild_env(pkg, {}, depends=True)
+                env.update({"T": self.T, "PKGCORE_EMPTYDIR": self.E, "PATH": os.environ["PATH"]})
+                r = ebp.run_phase("compile", env, tmpdir=(self.T if tmpdir else None), sandbox=False,
+                                  additional_commands={"has_version": self.helper_handler,
+                                                       "request_bashrcs": self.bashrc_handler})
+                return ("ok" if r else "false"), None
             if kind == "phase":
                 phase, body, tmpdir = action[1], action[2], action[3]
+                self.cur_bashrcs = self.bashrc_list(action[4] if len(action) > 4 else "none")
                 pkg = self.pkgs["cat/phases-1"]
                 env = self.processor.expected_ebuild_env(pkg, {}, depends=True)
                 env.update({"T": self.T, "PKGCORE_EMPTYDIR": self.E, "PATH": os.environ["PATH"],
@@ -225,6 +272,9 @@ class Harness:
             return ["preload", names, rng.random() < 0.6]
         if r < 0.67:
             return ["clear"]
+        if r < 0.76:
+            return ["bashrc", rng.choice(["none", "one", "two", "dir", "file-dir-file", "missing", "missing-then-file", "dangling",
+                                          "fails", "syntax"]), rng.random() < 0.4]
         return ["phase", "pretend", rng.choice(list(BODIES)), rng.random() < 0.4]
 
     # -- probe: does the processor pkgcore hands out next answer with the right data? -----
@@ -336,7 +386,7 @@ def session(ctx, h, actions=None):
         if ctx.out_of_time(60):
             break
         wit = {"script_so_far": log + [action], "last_kind": action[0] + (":" + str(action[2]) if action[0] == "phase" else "")
-               + (":" + action[1] if action[0] == "metadata" else "")}
+               + (":" + action[1] if action[0] in ("metadata", "bashrc") else "")}
         h.ebd.take_stalls()
         # Verdicts of this step are committed only if pkgcore's own 10 s liveness alarm did not fire during it: on an
         # overloaded box a daemon may simply be slower than that, pkgcore then abandons the probe (callers discard the
@@ -385,7 +435,7 @@ def _step(ctx, h, rng, action, wit, log):
             return
         disturb = None
         sigdesc = None
-        if len(action) > 0 and action[0] in ("metadata", "phase", "env", "preload") and rng.random() < 0.18 and ebp.pid:
+        if len(action) > 0 and action[0] in ("metadata", "phase", "env", "preload", "bashrc") and rng.random() < 0.18 and ebp.pid:
             sig = rng.choice([signal.SIGINT, signal.SIGTERM, "stopcont", "stopcont"])
             delay = rng.choice([0.0, 0.005, 0.02, 0.05, 0.15, 0.4])
             disturb = Disturber(ebp.pid, delay, sig)
@@ -440,6 +490,9 @@ def _step(ctx, h, rng, action, wit, log):
         elif action[0] == "clear" and not hard_signal:
             if outcome != "ok":
                 ctx.violation("clear-preloaded-reply-misread", dict(wit, outcome=outcome, detail=detail, rule="clear"))
+        elif action[0] == "bashrc" and not hard_signal and outcome != "ok":
+            # sourcing a directory / missing / failing / syntactically broken bashrc is reported by bash and skipped
+            ctx.violation("phase-with-bashrc-list-failed", dict(wit, outcome=outcome, detail=detail, rule="bashrc:" + action[1]))
         elif action[0] == "env" and not hard_signal and outcome != "ok":
             ctx.violation("simple-request-failed", dict(wit, outcome=outcome, detail=detail, rule=action[0]))
         elif action[0] == "alive" and outcome != "ok":
@@ -565,6 +618,11 @@ def run(ctx):
         [["preload", ["g3", bad], True], ["preload", ["g1"], False], ["env", "cat/ok1-1"], ["clear"], ["metadata", "cat/ok2-1"]],
         [["phase", "pretend", "unknown-cmd", False], ["metadata", "cat/ok1-1"], ["phase", "pretend", "helper-twice", True], ["alive"]],
         [["metadata", "cat/multiline-1"], ["alive"], ["metadata", "cat/ok1-1"], ["phase", "pretend", "stderr-multiline-fail", False], ["alive"]],
+        # the bashrc exchange with lists that contain entries which are not regular files
+        [["bashrc", "two", False], ["bashrc", "file-dir-file", True], ["bashrc", "missing-then-file", False],
+         ["bashrc", "dangling", False], ["alive"]],
+        [["bashrc", "dir", False], ["phase", "pretend", "helper", False], ["bashrc", "syntax", True], ["bashrc", "fails", False],
+         ["bashrc", "none", False], ["metadata", "cat/ok2-1"]],
     ]
     try:
         if not ctx.quick or ctx.shard < 2:
